@@ -44,6 +44,8 @@ def shards(tier):
             out.append(dict(fam="iii", first=[p, kd]))
     out.append(dict(fam="iv"))
     out.append(dict(fam="v"))
+    out += [dict(fam="vi", k=k) for k in range(4)]
+    out += [dict(fam="vii", k=k) for k in range(16)]
     return out
 
 
@@ -445,8 +447,100 @@ def fam_v(tier, acc):
     acc.sample(dict(fam="v", tables=len(fam), pairs=len(fam) ** 2))
 
 
+def fam_vi(k, tier, acc):
+    """minimise_tables over several chips whose tables have the same keys,
+    masks and routes but different source directions (straight through /
+    turning / unknown): every chip is judged against its own table, in both
+    insertion orders of the dict."""
+    m = 0xffffffff
+    srcs = (S, W, None)
+    i = -1
+    for n in (1, 2, 3):
+        for ks in itertools.combinations(range(4), n):
+            for s1 in itertools.product(srcs, repeat=n):
+                for s2 in itertools.product(srcs, repeat=n):
+                    if s1 == s2:
+                        continue
+                    i += 1
+                    if i % 4 != k:
+                        continue
+                    ta = [[[N], key, m, [s]] for key, s in zip(ks, s1)]
+                    tb = [[[N], key, m, [s]] for key, s in zip(ks, s2)]
+                    for target in (None, 0, 1):
+                        acc.evaluations += 1
+                        acc.nontrivial += 1
+                        judge_tables(dict(
+                            fam="vi", tables=[[[0, 0], ta], [[1, 0], tb]],
+                            target=target), acc)
+    acc.sample(dict(fam="vi", k=k))
+
+
+def fam_vii(k, tier, acc):
+    """Merge group with blockers (4-bit keys): three exact keys {0, a, b}
+    with one route - every triple up to the XOR symmetry of the key space -
+    below them two ternary entries (>= 1 X) with other routes, in generality
+    order (both orders on ties).  The merge of the group must be pruned /
+    abandoned against the blockers: the up- and down-check machinery of
+    ordered covering is exercised with a candidate whose insertion point
+    moves."""
+    nb = 4
+    pats = []
+    for t in itertools.product((0, 1, 2), repeat=nb):
+        if 2 not in t:
+            continue
+        key = sum((1 << i) for i, v in enumerate(t) if v == 1)
+        mask = sum((1 << i) for i, v in enumerate(t) if v != 2)
+        pats.append((t.count(2), key, mask | mask_of(0, nb)))
+    pats.sort()
+    i = -1
+    m = 0xffffffff
+    for a, b in itertools.combinations(range(1, 16), 2):
+        group = [[[N], kk, m, [W]] for kk in (0, a, b)]
+        for p1, p2 in itertools.combinations(range(len(pats)), 2):
+            i += 1
+            if i % 16 != k:
+                continue
+            orders = [(p1, p2)]
+            if pats[p1][0] == pats[p2][0]:
+                orders.append((p2, p1))
+            for (q1, q2) in orders:
+                for r1, r2 in ((CORE1, E), (CORE1, CORE1)):
+                    table = group + [
+                        [[r1], pats[q1][1], pats[q1][2], [W]],
+                        [[r2], pats[q2][1], pats[q2][2], [W]]]
+                    acc.evaluations += 1
+                    acc.nontrivial += 1
+                    for fn in ("oc",):
+                        r = call(fn, table, None)
+                        case = dict(fam="vii", table=table, nbits=nb, fn=fn,
+                                    target=None)
+                        if r[0] == "exc":
+                            acc.violation(dict(kind="exception", fn=fn,
+                                               empty=False), case, r[1],
+                                          size=5)
+                        elif r[0] == "ok":
+                            msg = compare(table, r[1], nb)
+                            if msg:
+                                acc.violation(dict(kind="routing_changed",
+                                                   fn=fn), case,
+                                              "%s of %s: %s" % (
+                                                  fn, [fmt(e) for e in table],
+                                                  msg), size=5)
+                            elif len(r[1]) > len(table):
+                                acc.violation(dict(kind="grew", fn=fn), case,
+                                              "result longer than input",
+                                              size=5)
+    acc.sample(dict(fam="vii", k=k, blockers=len(pats)))
+
+
 def run_shard(params, tier, acc):
     f = params["fam"]
+    if f == "vii":
+        fam_vii(params["k"], tier, acc)
+        return
+    if f == "vi":
+        fam_vi(params["k"], tier, acc)
+        return
     if f == "i":
         fam_i(params["hi"], tier, acc)
     elif f == "ii":
